@@ -86,7 +86,7 @@ class Folder:
                 return r
             if isinstance(r, ImportRef):
                 return ("ext", r.dotted())
-            if e.id in ("len", "str", "int", "tuple", "list"):
+            if e.id in ("len", "str", "int", "tuple", "list", "zip", "enumerate", "range", "sorted", "reversed", "frozenset", "set", "dict"):
                 return ("builtin", e.id)
             raise Unknown(f"name {e.id}")
         if isinstance(e, ast.JoinedStr):
@@ -156,9 +156,12 @@ class Folder:
                 raise Unknown("comprehension shape")
             g = e.generators[0]
             it = self.eval(g.iter, mod, env, func)
-            if not isinstance(it, (tuple, list)) or not isinstance(g.target, ast.Name):
+            if not isinstance(it, (tuple, list)):
                 raise Unknown("comprehension over non-constant")
-            return tuple(self.eval(e.elt, mod, {**env, g.target.id: x}, func) for x in it)
+            out_c = []
+            for x in it:
+                out_c.append(self.eval(e.elt, mod, {**env, **self._bind_target(g.target, x)}, func))
+            return tuple(out_c)
         if isinstance(e, ast.Subscript):
             base = self.eval(e.value, mod, env, func)
             idx = self.eval(e.slice, mod, env, func) if not isinstance(e.slice, ast.Slice) else None
@@ -212,6 +215,18 @@ class Folder:
                 return len(args[0])  # type: ignore[arg-type]
             if target[1] in ("tuple", "list"):
                 return tuple(args[0]) if args else ()  # type: ignore[arg-type]
+            if target[1] == "zip" and all(isinstance(a, (tuple, list)) for a in args):
+                return tuple(zip(*args))
+            if target[1] == "enumerate" and args and isinstance(args[0], (tuple, list)):
+                start = args[1] if len(args) > 1 and isinstance(args[1], int) else 0
+                for kw in e.keywords:
+                    if kw.arg == "start":
+                        start = self.eval(kw.value, mod, env, func)  # type: ignore[assignment]
+                return tuple(enumerate(args[0], start))  # type: ignore[arg-type]
+            if target[1] == "range" and all(isinstance(a, int) for a in args) and 1 <= len(args) <= 3:
+                return tuple(range(*args))  # type: ignore[arg-type]
+            if target[1] in ("frozenset", "set"):
+                return frozenset(args[0]) if args else frozenset()  # type: ignore[arg-type]
             if target[1] == "str":
                 return str(args[0])
         if isinstance(target, ClassInfo):
@@ -238,6 +253,16 @@ class Folder:
                 return self.eval(body[0].value, target.module, new_env, target)
             raise Unknown(f"helper {target.qual} is not a single-return function")
         raise Unknown(f"call {ast.unparse(e)[:60]}")
+
+    def _bind_target(self, target: ast.AST, value) -> dict[str, object]:
+        if isinstance(target, ast.Name):
+            return {target.id: value}
+        if isinstance(target, (ast.Tuple, ast.List)) and isinstance(value, (tuple, list)) and len(target.elts) == len(value):
+            out: dict[str, object] = {}
+            for t, v in zip(target.elts, value):
+                out.update(self._bind_target(t, v))
+            return out
+        raise Unknown("comprehension target shape")
 
     # --------------------------------------------------------------- discovery
     def all_regex_constants(self) -> dict[str, RegexConst]:
